@@ -209,6 +209,7 @@ type cop struct {
 	limit       int
 	yield       bool
 	nested      bool // the iteration consumer reads from the same view
+	fresh       bool // Get/Has/Set/Delete go through a view derived right now (while other clients use the parent)
 	ents        []bent
 }
 
@@ -402,6 +403,7 @@ func (c *concWorld) genOp(pool []string, tag string) cop {
 	switch o.kind {
 	case sGet, sHas, sSet, sDelete:
 		o.key = pick()
+		o.fresh = s.Choose(4) == 3
 	case sDeletePrefix:
 		o.key = prefix()
 	case sIterate, sIterateKeys:
@@ -429,10 +431,23 @@ func (c *concWorld) run(ci int, script []cop) {
 		v := c.views[o.view]
 		full := v.realm + string(o.key)
 		key := append([]byte{}, o.key...)
+		st := v.st
+		if o.fresh {
+			// a view of the same realm derived while other clients are inside operations on the parent
+			nv, err := v.st.WithExtendedRealm([]byte{})
+			if err != nil {
+				if !isClosedErr(err) {
+					c.s.Fail("contract", "WithRealm-error", "client%d: deriving a view failed: %v", ci, err)
+				}
+				continue
+			}
+			c.s.Probe("operation-through-freshly-derived-view")
+			st = nv
+		}
 		switch o.kind {
 		case sGet:
 			h := c.begin(ci, cin{kind: mGet, name: "Get", key: full})
-			val, err := v.st.Get(key)
+			val, err := st.Get(key)
 			if err != nil && errors.Is(err, kvstore.ErrKeyNotFound) {
 				c.end(h, cout{}, nil)
 			} else {
@@ -440,15 +455,23 @@ func (c *concWorld) run(ci int, script []cop) {
 			}
 		case sHas:
 			h := c.begin(ci, cin{kind: mHas, name: "Has", key: full})
-			has, err := v.st.Has(key)
+			has, err := st.Has(key)
 			c.end(h, cout{found: has}, err)
 		case sSet:
 			h := c.begin(ci, cin{kind: mSet, name: "Set", key: full, val: o.val})
-			err := v.st.Set(key, []byte(o.val))
+			buf := []byte(o.val)
+			err := st.Set(key, buf)
 			c.end(h, cout{}, err)
+			// the caller re-uses its buffers once the call has returned
+			for i := range buf {
+				buf[i] = '!'
+			}
+			for i := range key {
+				key[i] = '!'
+			}
 		case sDelete:
 			h := c.begin(ci, cin{kind: mDelete, name: "Delete", key: full})
-			err := v.st.Delete(key)
+			err := st.Delete(key)
 			c.end(h, cout{}, err)
 		case sDeletePrefix:
 			h := c.begin(ci, cin{kind: mDeletePrefix, name: "DeletePrefix", key: full})
@@ -499,12 +522,17 @@ func (c *concWorld) run(ci int, script []cop) {
 			}
 			last := map[string]bent{}
 			var order []string
+			var bufs [][]byte
 			for _, e := range o.ents {
 				var berr error
+				kb := append([]byte{}, e.key...)
+				bufs = append(bufs, kb)
 				if e.del {
-					berr = b.Delete(append([]byte{}, e.key...))
+					berr = b.Delete(kb)
 				} else {
-					berr = b.Set(append([]byte{}, e.key...), []byte(e.val))
+					vb := []byte(e.val)
+					bufs = append(bufs, vb)
+					berr = b.Set(kb, vb)
 				}
 				if berr != nil {
 					c.s.Fail("contract", "batch-op-error", "client%d: batch operation failed: %v", ci, berr)
@@ -518,6 +546,12 @@ func (c *concWorld) run(ci int, script []cop) {
 			call := int64(c.s.Tick())
 			err = b.Commit()
 			ret := int64(c.s.Tick())
+			// the caller re-uses its buffers once Commit has returned
+			for _, bb := range bufs {
+				for i := range bb {
+					bb[i] = '!'
+				}
+			}
 			if err != nil && !isClosedErr(err) {
 				c.s.Fail("contract", "Commit-error", "client%d: Commit failed with %v", ci, err)
 			}
